@@ -9,7 +9,7 @@ import os
 import vlib
 
 PID = "C08"
-FORMULAS = ["CrdAfterAll.Instances", "CrdAfterAll.Instances.RecreatedAfterList", "CrdAfterAll.Running", "StopAfterGone.Instances",
+FORMULAS = ["LockBeforeFin", "CrdAfterAll.Instances", "CrdAfterAll.Instances.RecreatedAfterList", "CrdAfterAll.Running", "StopAfterGone.Instances",
             "StopAfterGone.Instances.RecreatedAfterList", "XrdFinalizer", "ClaimAfterXR", "NoDeadlock"]
 QUICK = [("quick", 2200), ("quick_fg", 1300), ("quick_faults", 1300), ("quick_tp", 1300)]
 THOROUGH = [("quick", 98249), ("quick_fg", 101046), ("quick_faults", 60000), ("quick_tp", 60000), ("thorough", 120000), ("thorough_fg", 60000)]
@@ -35,6 +35,24 @@ def drive_and_judge(ctx, scs, shards):
     return s, nlines
 
 
+def lockfin(ctx):
+    """the package clause: a deleted revision leaves the Lock before it is finalized (spec/LockFin.tla)"""
+    sub = ctx.sub("lockfin")
+    mc = sub.model_check("MCLockFin", "MCLockFin.cfg", workers=2, timeout=120)
+    scs = [{"id": "%s-lockfin-%03d" % (PID, i), "hist": h, "rider": "lockfin"} for i, h in sub.sample_lines(mc["emitted_file"], 10 ** 6, mc["emitted"])]
+    binp = sub.go_build("./drivers/teardown")
+    trace = os.path.join(sub.work, "trace.ndjson")
+    summ = os.path.join(sub.work, "summary.json")
+    sub.run([binp, "-lockfin", "-scenarios", sub.write_scenarios(scs), "-trace", trace, "-summary", summ])
+    viols, n = sub.monitor("MonLockFin", trace)
+    by_id = {s["id"]: s for s in scs}
+    for formula, line, scid in viols:
+        ctx.violation(formula, scid, ctx.replay_file(by_id.get(scid.split("/")[0], {"id": scid, "rider": "lockfin"})), "trace line %d" % line, fingerprint=formula)
+    with open(summ) as f:
+        s = json.load(f)
+    return dict(states=mc["states"], transitions=mc["transitions"], scenarios=len(scs), runs=s["runs"], events=n, drift=s["drift"])
+
+
 def run(ctx):
     plan = QUICK if ctx.quick else THOROUGH
     scs, states, trans, emitted, consts = [], 0, 0, 0, {}
@@ -50,16 +68,18 @@ def run(ctx):
     w = ctx.model_check("MCTeardown", "MCTeardown_witness.cfg", sub="mc_witness", workers=4, timeout=300, expect_violations=["Ordered"])
     consts["MCTeardown_witness.cfg"] = dict(violates=["Ordered"], states_to_violation=w["states"])
     chosen = regression() + scs
+    lf = lockfin(ctx)
     s, nlines = drive_and_judge(ctx, chosen, shards=8 if ctx.quick else 14)
     ctx.cov.update(dict(
-        states=states, transitions=trans, traces_validated_against_impl=s["runs"], samples=s["samples"][:2], model_runs=consts,
+        states=states + lf["states"], transitions=trans + lf["transitions"], traces_validated_against_impl=s["runs"] + lf["runs"],
+        samples=s["samples"][:2], model_runs=consts, lockfin_rider=lf,
         schedules_emitted=emitted, schedules_replayed=s["scenarios"], steps=s["steps"], events=nlines, per_action_counts=s["counts"],
         drift=dict(steps_out_of_sync=s["drift"], runs_with_drift=s["drift_runs"]), monitor_formulas=FORMULAS, exhaustive=(emitted == len(scs)),
         checker_cmd="tlc MCTeardown (M,G) -> harness/drivers/teardown on /repo (T) -> tlc MonTeardown",
         rule="one schedule per model transition that ends a reconcile of any actor: interleavings of the real definition, offered, claim and XR "
              "reconcilers at call granularity with user deletions, Kubernetes CRD-instance cleanup and foreground GC steps, third-party finalizer "
              "removals and API errors at the modelled calls",
-        not_covered="the package-revision/Lock and composed-Usage clauses are judged by the C16 and C19 modules' riders, not here",
+        not_covered="the composed-Usage clause (UsageAfterUser) is judged by the Usage module (C19) as a rider",
     ))
     ctx.assumptions += ["a Create that carries a resourceVersion is refused (API server rule) - this is what keeps a claim reconcile that read the XR from re-creating it",
                         "third parties rewriting owner references of the CRDs are outside the quantifier",
@@ -69,5 +89,14 @@ def run(ctx):
 def replay(ctx, path):
     with open(path) as f:
         sc = json.load(f)
+    if sc.get("rider") == "lockfin":
+        binp = ctx.go_build("./drivers/teardown")
+        trace = os.path.join(ctx.work, "trace.ndjson")
+        ctx.run([binp, "-lockfin", "-scenarios", ctx.write_scenarios([sc]), "-trace", trace, "-summary", os.path.join(ctx.work, "summary.json")])
+        viols, n = ctx.monitor("MonLockFin", trace)
+        for formula, line, scid in viols:
+            ctx.violation(formula, scid, path, "trace line %d" % line, fingerprint=formula)
+        ctx.cov.update(dict(states=1, transitions=1, traces_validated_against_impl=1, samples=[sc], events=n))
+        return
     s, nlines = drive_and_judge(ctx, [sc], shards=1)
     ctx.cov.update(dict(states=1, transitions=1, traces_validated_against_impl=s["runs"], samples=[sc], events=nlines))
